@@ -412,6 +412,18 @@ def c_vmap_insert(ex, st, callee, a):
     upd(st, a[0], ('vmap', Store(m[1], k, True), tuple(e for e in m[2]) + ((k, a[2]),))); return [(None, NONE)]
 
 
+@contract(r'^HashMap::<std::string::String, Box<dyn for<.*>>::entry$')
+def c_vmap_entry(ex, st, callee, a): return [(None, ('ventry', a[0], as_str(st, a[1])))]
+
+
+@contract(r'^std::collections::hash_map::Entry::<.*std::string::String, Box<dyn for<.*>>::or_insert$')
+def c_vmap_or_insert(ex, st, callee, a):
+    """entry(k).or_insert(v): an existing registration is kept"""
+    _, mref, k = a[0]; m = deref(st, mref)
+    s_abs = st.fork(); upd(s_abs, mref, ('vmap', Store(m[1], k, True), tuple(m[2]) + ((k, a[1]),)))
+    return [(Select(m[1], k), UNIT, st), (Not(Select(m[1], k)), UNIT, s_abs)]       # the returned &mut V is dropped by the callers this contract serves
+
+
 @contract(r'^<HashMap<std::string::String, Box<dyn for<.*>> as Extend<')
 def c_vmap_extend(ex, st, callee, a):
     m = deref(st, a[0]); o = deref(st, a[1]); pres = m[1]
@@ -547,7 +559,9 @@ def c_replace_offset(ex, st, callee, a):
 def c_to_offset(ex, st, callee, a):
     v = deref(st, a[0]); o = deref(st, a[1]); new = IntVal(0) if (isinstance(o, tuple) and o[0] == 'extern_const') else (o[1] if isinstance(o, tuple) and o[0] == 'utcoffset' else None)
     if new is None: raise Unsupported('to_offset(%s)' % str(o)[:40])
-    return [(None, ('instant', v[1], new))]
+    # time documents: panics when the local date-time in the new offset is outside -9999-01-01 ..= 9999-12-31 (default feature set of the time crate)
+    local = v[1] + new * 10**9; inside = And(local >= -377705116800 * 10**9, local < 253402300800 * 10**9)
+    return [(Not(inside), Panic('OffsetDateTime::to_offset: local datetime out of valid range')), (inside, ('instant', v[1], new))]
 
 
 @contract(r'^OffsetDateTime::unix_timestamp$')
